@@ -827,6 +827,28 @@ func (in *interp) harnessAPI(fr *frame, name string, args []value) (value, bool)
 			}
 		}
 		return ts.BVi(int64(n), 64), true
+	case "vStubArgString":
+		// vStubArgString(nameContains, k, arg): the concrete string passed as argument `arg` (receiver = 0)
+		// of the k-th call on this path of a by-name stubbed function whose name contains nameContains; ""
+		// when there is no such call or the argument is not a concrete string
+		sub := goString(fr, args[0])
+		k, ai := int(in.concOrFail(args[1], "vStubArgString call index")), int(in.concOrFail(args[2], "vStubArgString argument index"))
+		for _, c := range in.stubLog {
+			if !strings.Contains(c.name, sub) {
+				continue
+			}
+			if k > 0 {
+				k--
+				continue
+			}
+			if ai >= 0 && ai < len(c.args) {
+				if str, ok := c.args[ai].(string); ok {
+					return str, true
+				}
+			}
+			return "", true
+		}
+		return "", true
 	case "vEvent":
 		in.event("harness", goString(fr, args[0]))
 		return nil, true
@@ -1040,6 +1062,7 @@ func (in *interp) runStub(fr *frame, fi *fnInfo, args []value) value {
 	kind := fi.stub
 	in.stubsUsed[fi.name+" => "+kind]++
 	in.stubCalls[fi.name]++
+	in.stubLog = append(in.stubLog, stubCallRec{fi.name, args})
 	mk := func(f func(t types.Type, i int) value) value {
 		switch res.Len() {
 		case 0:
